@@ -125,7 +125,7 @@ def main():
             "guard": "ldk_verif",
             "enable": "RUSTFLAGS=\"--cfg ldk_verif\" (set in /verif/sim/.cargo/config.toml and /verif/sim-store/.cargo/config.toml; cfg declared in /repo/Cargo.toml check-cfg list)",
             "baseline_off_cmd": "cd /repo && cargo nextest run --workspace --no-fail-fast --offline --test-threads 8",
-            "source_commits": ["d85b81c", "9310919", "a7eb0e1"],
+            "source_commits": ["d85b81c", "9310919", "a7eb0e1", "a6088b8"],
             "add_only": False,
         },
         "engines": [
